@@ -308,6 +308,11 @@ def run(ctx: core.Ctx):
     loop = asyncio.new_event_loop()
     try:
         infer_cases = []
+        # a column whose first value comes late: k leading NULLs (list and async sources), then a value of each kind
+        for k in (1, 5, 99, 100, 101, 150, 400) + (() if ctx.quick else (1000, 5000)):
+            for late in (7, "late", 2.5, date(2021, 3, 4)):
+                rows = [(i, None) for i in range(k)] + [(k, late), (k + 1, None), (k + 2, late)]
+                infer_cases.append((["id", "late"], ["id", "late"], rows, (k + len(str(late))) % 2 == 0))
         for _ in range(60 if ctx.quick else 1500):
             ncols = rng.randint(1, 4)
             names = [rng.choice(["a", "a", "b", "c"]) for _ in range(ncols)]
@@ -341,9 +346,20 @@ def run(ctx: core.Ctx):
                 witness = witness or dict(kind="inference", names=names, rows=repr(rows), error=repr(e))
                 continue
             if out_rows != [tuple(r) for r in rows] or got_names != names:
-                witness = witness or dict(kind="inference", names=names, rows=repr(rows), rows_out=repr(out_rows), names_out=got_names)
+                witness = witness or dict(kind="inference", names=names, rows=repr(rows)[:400], rows_out=repr(out_rows)[:400], names_out=got_names)
             if got_types != m:
-                disagreements.append(dict(kind="inferred-types", names=names, rows=repr(rows), impl=got_types, model=m))
+                disagreements.append(dict(kind="inferred-types", names=names, rows=repr(rows)[:400], impl=got_types, model=m))
+            # every row must be encodable under the inferred columns, in both protocols (results whose columns hold values of
+            # one kind each; a column mixing kinds is the application's mistake)
+            homogeneous = all(len({type(r[j]) for r in rows if r[j] is not None}) <= 1 for j in range(len(names))) and \
+                all(isinstance(c, str) for c in cols)
+            try:
+                for r in (out_rows if homogeneous else []):
+                    packets.make_text_resultset_row(r, rs.columns)
+                    packets.make_binary_resultrow(r, rs.columns)
+            except Exception as e:  # noqa
+                witness = witness or dict(kind="inference-unencodable", names=names, nrows=len(rows), leading_nulls=next((i for i, r in enumerate(rows) if r[-1] is not None), None),
+                                          inferred_types=got_types, error=repr(e), rows_tail=repr(rows[-3:]))
     finally:
         loop.close()
 
